@@ -145,6 +145,12 @@ fn f64_norm_point(c: &F64Angle, obs: &mut Obs) -> PropResult {
     ensure!(ep <= u, "{}({:e}).into_positive_degrees() = {:e} not congruent mod 360 (error {:e} > ulp {:e})", HNAMES[k], x, p, ep, u);
     ensure!(sr.to_bits() == s.to_radians().to_bits() && pr.to_bits() == p.to_radians().to_bits(), "{}: radian accessors inconsistent for {:e}", HNAMES[k], x);
     ensure!(via.to_bits() == s.to_bits(), "{}: From<hue> for f64 differs from into_degrees", HNAMES[k]);
+    // f32::from(Hue<f64>): the signed normal form of the *stored f64 angle*, rounded once to f32 (not the normal form of
+    // the angle rounded to f32, which loses the fraction at large magnitudes)
+    let via32: f32 = by_hue!(k, H => f32::from(H::<f64>::from_degrees(x)));
+    let e32 = (via32 as f64 - s).abs();
+    obs.err("f64_hue_to_f32_ulps32", e32 / ulp32(via32.abs().max(f32::MIN_POSITIVE)) as f64);
+    ensure!(e32 <= 1.0 * ulp32((s as f32).abs().max(1e-30)) as f64 + u, "{}({:e}): f32::from(hue) = {:e} but the signed normal form of the stored f64 angle is {:e} (error {:e})", HNAMES[k], x, via32, s, e32);
     // raw accessors
     let (raw, rawrad, back) = by_hue!(k, H => {
         let h = H::<f64>::from_degrees(x);
@@ -376,9 +382,41 @@ fn arith_point(c: &ArithCase, obs: &mut Obs) -> PropResult {
         let b = H::<f32>::from_degrees(yf);
         ensure!((a + b).into_raw_degrees().to_bits() == (xf + yf).to_bits(), "f32 hue + hue is not raw addition");
         ensure!((a - b).into_raw_degrees().to_bits() == (xf - yf).to_bits(), "f32 hue - hue is not raw subtraction");
-        // f32 + f64 mixed scalar forms
-        let s: f32 = xf + H::<f32>::from_degrees(yf).into_raw_degrees();
-        ensure!(s.to_bits() == (xf + yf).to_bits(), "mixed");
+        ensure!((a + yf).into_raw_degrees().to_bits() == (xf + yf).to_bits(), "f32 hue + T is not raw addition");
+        ensure!((a - yf).into_raw_degrees().to_bits() == (xf - yf).to_bits(), "f32 hue - T is not raw subtraction");
+        let mut m = a; m += b;
+        ensure!(m.into_raw_degrees().to_bits() == (xf + yf).to_bits(), "f32 hue += hue differs");
+        let mut m = a; m -= b;
+        ensure!(m.into_raw_degrees().to_bits() == (xf - yf).to_bits(), "f32 hue -= hue differs");
+        let mut m = a; m += yf;
+        ensure!(m.into_raw_degrees().to_bits() == (xf + yf).to_bits(), "f32 hue += T differs");
+        let mut m = a; m -= yf;
+        ensure!(m.into_raw_degrees().to_bits() == (xf - yf).to_bits(), "f32 hue -= T differs");
+        // the raw angle on the left-hand side (separate impls for f32 and f64): T + hue, T - hue, T += hue, T -= hue
+        let r = xf + b;
+        ensure!(r.into_raw_degrees().to_bits() == (xf + yf).to_bits(), "{}: {}f32 + hue({}) = hue({}) expected hue({})", HNAMES[k], xf, yf, r.into_raw_degrees(), xf + yf);
+        let r = xf - b;
+        ensure!(r.into_raw_degrees().to_bits() == (xf - yf).to_bits(), "{}: {}f32 - hue({}) = hue({}) expected hue({})", HNAMES[k], xf, yf, r.into_raw_degrees(), xf - yf);
+        let mut m = xf; m += b;
+        ensure!(m.to_bits() == (xf + yf).to_bits(), "{}: f32 += hue gives {} expected {}", HNAMES[k], m, xf + yf);
+        let mut m = xf; m -= b;
+        ensure!(m.to_bits() == (xf - yf).to_bits(), "{}: f32 -= hue gives {} expected {}", HNAMES[k], m, xf - yf);
+        let b = H::<f64>::from_degrees(y);
+        let r = x + b;
+        ensure!(r.into_raw_degrees().to_bits() == (x + y).to_bits(), "{}: {}f64 + hue({}) = hue({}) expected hue({})", HNAMES[k], x, y, r.into_raw_degrees(), x + y);
+        let r = x - b;
+        ensure!(r.into_raw_degrees().to_bits() == (x - y).to_bits(), "{}: {}f64 - hue({}) = hue({}) expected hue({})", HNAMES[k], x, y, r.into_raw_degrees(), x - y);
+        let mut m = x; m += b;
+        ensure!(m.to_bits() == (x + y).to_bits(), "{}: f64 += hue gives {} expected {}", HNAMES[k], m, x + y);
+        let mut m = x; m -= b;
+        ensure!(m.to_bits() == (x - y).to_bits(), "{}: f64 -= hue gives {} expected {}", HNAMES[k], m, x - y);
+        // 8-bit hues: saturating forms and wrapping-free addition on the raw code
+        use palette::num::{SaturatingAdd, SaturatingSub};
+        let (p, q) = ((x.abs() as u64 % 256) as u8, (y.abs() as u64 % 256) as u8);
+        let (hp, hq) = (H::<u8>::new(p), H::<u8>::new(q));
+        ensure!(hp.saturating_add(hq).into_inner() == p.saturating_add(q) && hp.saturating_add(q).into_inner() == p.saturating_add(q), "u8 hue saturating_add is not the raw saturating addition");
+        ensure!(hp.saturating_sub(hq).into_inner() == p.saturating_sub(q) && hp.saturating_sub(q).into_inner() == p.saturating_sub(q), "u8 hue saturating_sub is not the raw saturating subtraction");
+        ensure!(u8::from(hp) == p && H::<u8>::from(p).into_inner() == p, "u8 hue From round trip");
     });
     Ok(())
 }
